@@ -212,7 +212,7 @@ pub fn test_case(ctx: &Ctx, c: &CleanCase, stats: &mut Stats) -> Result<(), Stri
 
 pub fn strategy(max_rules: usize, max_ops: usize) -> impl Strategy<Value = CleanCase>
 {
-    let mix = OpMix { rule_edits: true, ruler_dir_damage: true, cleans: true, delete_leaf: false, swaps: 1, dir_ops: 0 };
+    let mix = OpMix { rule_edits: true, ruler_dir_damage: true, cleans: true, delete_leaf: false, swaps: 1, dir_ops: 0, orphan: false };
     (
         gen::graph_spec(max_rules, false).prop_map(|mut g|
         {
